@@ -281,6 +281,14 @@ func (idx *PQIndex) Add(vector VectorNode) error {
 		return err
 	}
 
+	// Re-adding an ID whose removal is still pending: apply the pending removals first,
+	// otherwise the tombstone would hide the new vector (and the next Flush would drop it)
+	if idx.deletedNodes.Contains(vector.ID()) {
+		if err := idx.flushLocked(); err != nil {
+			return err
+		}
+	}
+
 	// Encode vector into PQ code
 	code := idx.encode(vector.Vector())
 
@@ -370,6 +378,11 @@ func (idx *PQIndex) Flush() error {
 	idx.mu.Lock()
 	defer idx.mu.Unlock()
 
+	return idx.flushLocked()
+}
+
+// flushLocked is Flush for callers that already hold the write lock.
+func (idx *PQIndex) flushLocked() error {
 	// Quick exit if nothing to flush
 	deletedCount := int(idx.deletedNodes.GetCardinality())
 	if deletedCount == 0 {
